@@ -192,33 +192,7 @@ def run(P, R, tier):
     # ---------------------------------------------------------------- C16.d
     ga = P.cls(BASE + '.GeometryArray')
     nd = 0
-    deriv = []
-    for name in ('__getitem__', 'take', '_concat_same_type', 'copy', 'fillna', 'astype'):
-        f0 = ga.members[name][1]
-        deriv.append((name, f0))
-        # helpers of the array class that a derivation calls (self._new_like(...), cls._rewrap(...))
-        for c0 in astq.own_calls(f0):
-            r0 = P.resolve_call(f0, c0)
-            if r0 and r0[0] == 'func' and r0[1].cls is not None and ga in (r0[1].cls.mro or []) and r0[1].name not in ('__getitem__', 'take', '_concat_same_type', 'copy', 'fillna', 'astype',
-                                                                                                                       'isna', '__len__', '__init__') \
-                    and not any(r0[1] is d[1] for d in deriv):
-                deriv.append((f'{name} -> {r0[1].name}', r0[1]))
-    # a derived array is (data, dtype) and nothing else: no attribute of the source is copied onto it (a flag such as "already oriented" or a cached value
-    # describes the SOURCE's rows, not the rows of a concatenation / selection)
-    for name, f in deriv:
-        for x in walk_own(f.node):
-            if isinstance(x, ast.Assign):
-                for t in x.targets:
-                    if isinstance(t, ast.Attribute) and isinstance(t.value, ast.Name) and t.value.id not in ('self', 'cls') and t.attr.startswith('_'):
-                        R.bad('C16.d', f, x, f'`{norm(x)}` in {name} copies state onto a derived array: the value was established for the source\'s rows and is wrong for a selection or concatenation',
-                              construct=f'{f.qualname}: state copied to the derived array')
-    for name, f in deriv:
-        for s in ast.walk(f.node):
-            if isinstance(s, ast.Call) and isinstance(s.func, (ast.Attribute, ast.Name, ast.Call)):
-                fn = norm(s.func)
-                if fn in ('self.__class__', 'type(self)', 'cls') or fn.endswith('Array') and fn[0].isupper():
-                    nd += 1
-                    R.check(fn in ('self.__class__', 'type(self)', 'cls'), 'C16.d', f, s, f'{name} constructs the receiver\'s own class', f'{name} constructs `{fn}`: a derived ring/polygon array changes its kind')
+    nd = derived_state(P, R, ga, 'C16.d', nd)
     R.floor('C16.d', 'derivation constructor sites', nd, 6)
     take_small_scope(P, R, ga)
     getitem_small_scope(P, R, ga)
@@ -346,6 +320,39 @@ def run(P, R, tier):
             R.exhaustive_sites['C16.e integer index validation n<=4, |i|<=6'] = True
             R.check(not bad, 'C16.e', gi, branch.test, f'integer indexing accepts exactly -n <= i < n and reads position i (mod n) on all {total} evaluated (n, i)',
                     f'integer indexing is wrong for {bad[:4]}', construct='integer index validation', counterexamples=bad[:8])
+
+
+def derived_state(P, R, ga, rule, nd=0):
+    """A derived array (selection, copy, concatenation, cast) is built from (data, dtype) only: no attribute of the source is copied onto it, and it is an
+    instance of the receiver's own class.  Returns the number of construction sites seen."""
+    deriv = []
+    for name in ('__getitem__', 'take', '_concat_same_type', 'copy', 'fillna', 'astype'):
+        f0 = ga.members[name][1]
+        deriv.append((name, f0))
+        # helpers of the array class that a derivation calls (self._new_like(...), cls._rewrap(...))
+        for c0 in astq.own_calls(f0):
+            r0 = P.resolve_call(f0, c0)
+            if r0 and r0[0] == 'func' and r0[1].cls is not None and ga in (r0[1].cls.mro or []) and r0[1].name not in ('__getitem__', 'take', '_concat_same_type', 'copy', 'fillna', 'astype',
+                                                                                                                       'isna', '__len__', '__init__') \
+                    and not any(r0[1] is d[1] for d in deriv):
+                deriv.append((f'{name} -> {r0[1].name}', r0[1]))
+    # a derived array is (data, dtype) and nothing else: no attribute of the source is copied onto it (a flag such as "already oriented" or a cached value
+    # describes the SOURCE's rows, not the rows of a concatenation / selection)
+    for name, f in deriv:
+        for x in walk_own(f.node):
+            if isinstance(x, ast.Assign):
+                for t in x.targets:
+                    if isinstance(t, ast.Attribute) and isinstance(t.value, ast.Name) and t.value.id not in ('self', 'cls') and t.attr.startswith('_'):
+                        R.bad(rule, f, x, f'`{norm(x)}` in {name} copies state onto a derived array: the value was established for the source\'s rows and is wrong for a selection or concatenation',
+                              construct=f'{f.qualname}: state copied to the derived array')
+    for name, f in deriv:
+        for s in ast.walk(f.node):
+            if isinstance(s, ast.Call) and isinstance(s.func, (ast.Attribute, ast.Name, ast.Call)):
+                fn = norm(s.func)
+                if fn in ('self.__class__', 'type(self)', 'cls') or fn.endswith('Array') and fn[0].isupper():
+                    nd += 1
+                    R.check(fn in ('self.__class__', 'type(self)', 'cls'), rule, f, s, f'{name} constructs the receiver\'s own class', f'{name} constructs `{fn}`: a derived ring/polygon array changes its kind')
+    return nd
 
 
 def bitmap_small_scope(P, R, ex):
